@@ -83,6 +83,20 @@ impl Check {
         // Driver-level checks of functional properties: a library panic on a valid sequence is a
         // violation. C07 (clean panics allowed) handles panics itself.
         crate::util::set_panic_prop(if prop == "C07" { None } else { Some(prop) });
+        // Watchdog: whatever the code under test does (for instance a wait that neither ends nor
+        // passes a busy-wait hook), the check itself terminates. Running out of this time is a
+        // machinery error, not a verdict.
+        {
+            let limit = std::time::Duration::from_secs(match tier {
+                Tier::Quick => 20 * 60,
+                Tier::Thorough => 10 * 3600,
+            });
+            let _ = std::thread::Builder::new().name("watchdog".into()).spawn(move || {
+                std::thread::sleep(limit);
+                eprintln!("MACHINERY-ERROR: {} {:?}: the check did not finish within {} s (watchdog); no verdict", prop, tier, limit.as_secs());
+                std::process::exit(2);
+            });
+        }
         Check {
             prop,
             tier,
